@@ -100,6 +100,8 @@ class LoopGen:
                 lb, ub, st = self.bound(ivs)
                 node = {"k": "rot", "iv": self.fresh("i"), "lb": lb, "ub": ub, "step": st, "tag": self.tag, "n": self.fresh("r")[2:]}
                 via = r.choice(["plain", "plain", "if", "cast"])
+                if r.random() < 0.3:
+                    node["dimsize"] = True  # the new buffer is as large as the previous one (memref.dim of the loop-carried buffer)
                 if via != "plain":
                     # "if": a new buffer is only taken in some iterations (the conditional yields the new or the previous one);
                     # "cast": the new buffer is handed on through a memref.cast
@@ -219,12 +221,16 @@ def emit(ast) -> str:
                 e(ind, f'{s["name"]} = memref.alloc({s["sizes"][0]}, {s["sizes"][1]}) {{alignment = 64 : i64, vsite = {s["site"]} : i64}} : {TB}')
             elif k == "rot":
                 n_, t_ = s["n"], s["tag"]
+                rows = "%c2"
                 e(ind, f'%ri{n_} = memref.alloc(%c2, %c2) {{alignment = 64 : i64, vsite = {t_} : i64}} : {TB}')
                 e(ind, f'%rr{n_} = scf.for {s["iv"]} = {s["lb"]} to {s["ub"]} step {s["step"]} iter_args(%rp{n_} = %ri{n_}) -> ({TB}) {{')
+                if s.get("dimsize"):
+                    rows = f"%rd{n_}"
+                    e(ind + 1, f"{rows} = memref.dim %rp{n_}, %c0 : {TB}")
                 if s.get("via") == "if":
                     e(ind + 1, f'%rc{n_} = arith.cmpi slt, {s["iv"]}, {s["b"]} : index')
                     e(ind + 1, f"%rn{n_} = scf.if %rc{n_} -> ({TB}) {{")
-                    e(ind + 2, f'%ra{n_} = memref.alloc(%c2, %c2) {{alignment = 64 : i64, vsite = {t_ - 1} : i64}} : {TB}')
+                    e(ind + 2, f'%ra{n_} = memref.alloc({rows}, %c2) {{alignment = 64 : i64, vsite = {t_ - 1} : i64}} : {TB}')
                     e(ind + 2, f'"test.op"(%rp{n_}, %ra{n_}) {{vtag = {t_ - 2} : i64}} : ({TB}, {TB}) -> ()')
                     e(ind + 2, f"memref.dealloc %rp{n_} : {TB}")
                     e(ind + 2, f"scf.yield %ra{n_} : {TB}")
@@ -233,13 +239,13 @@ def emit(ast) -> str:
                     e(ind + 1, "}")
                     e(ind + 1, f"scf.yield %rn{n_} : {TB}")
                 elif s.get("via") == "cast":
-                    e(ind + 1, f'%ra{n_} = memref.alloc(%c2, %c2) {{alignment = 64 : i64, vsite = {t_ - 1} : i64}} : {TB}')
+                    e(ind + 1, f'%ra{n_} = memref.alloc({rows}, %c2) {{alignment = 64 : i64, vsite = {t_ - 1} : i64}} : {TB}')
                     e(ind + 1, f'%rn{n_} = "memref.cast"(%ra{n_}) : ({TB}) -> {TB}')
                     e(ind + 1, f'"test.op"(%rp{n_}, %rn{n_}) {{vtag = {t_ - 2} : i64}} : ({TB}, {TB}) -> ()')
                     e(ind + 1, f"memref.dealloc %rp{n_} : {TB}")
                     e(ind + 1, f"scf.yield %rn{n_} : {TB}")
                 else:
-                    e(ind + 1, f'%rn{n_} = memref.alloc(%c2, %c2) {{alignment = 64 : i64, vsite = {t_ - 1} : i64}} : {TB}')
+                    e(ind + 1, f'%rn{n_} = memref.alloc({rows}, %c2) {{alignment = 64 : i64, vsite = {t_ - 1} : i64}} : {TB}')
                     e(ind + 1, f'"test.op"(%rp{n_}, %rn{n_}) {{vtag = {t_ - 2} : i64}} : ({TB}, {TB}) -> ()')
                     e(ind + 1, f"memref.dealloc %rp{n_} : {TB}")
                     e(ind + 1, f"scf.yield %rn{n_} : {TB}")
